@@ -91,12 +91,18 @@ def check_case(case):
     T0 = None if z.start_time is None else T(z.start_time)
     zdata = np.asarray(z.data)
 
-    for tq in range(-4, 4 * (N + 1) + 1):
-        t = F(tq, 4)
+    tgrid = [F(tq, 4) for tq in range(-4, 4 * (N + 1) + 1)]
+    # requests a few nano-samples past / before a whole sample (the library treats |shift| < 1e-8 as no shift)
+    tgrid += [F(float(i) + 5e-9) for i in range(0, N, max(1, N // 3))] + [F(float(i) - 4e-9) for i in range(1, N + 1, max(1, N // 3))]
+    for t in tgrid:
+        tq = str(t)
         forms = []
         if t.denominator == 1:
             forms.append(("int", int(t), t, F(0)))
-        forms.append(("float", float(t), t, F(0)))
+        near_whole = t.denominator > 4
+        forms.append(("float", float(t), t, F(1, 10 ** 8) if near_whole else F(0)))
+        if near_whole:
+            res.hits["request a few nano-samples off a whole sample"] += 1
         q = (float(t) / z.sample_rate).to(unit)
         tq_exact = fr(q.value) * usc * srx
         forms.append(("quantity", q, tq_exact, abs(tq_exact) / 10 ** 15 + F(1, 10 ** 12)))
@@ -132,7 +138,7 @@ def one_call(res, case, z, zdata, XL, N, is_c, T0, srx, targ, teff, delta, n, fo
         else:
             res.hits["Time on start-less signal rejected"] += 1
         return
-    exact_form = form in ("int", "float")
+    exact_form = form in ("int", "float") and not (delta and delta > 0)
     db = F(0) if exact_form else max(delta, F(1, 10 ** 9))
     in_range = (n >= 0 and teff >= 0 and teff + n <= N)
     on_boundary = (not exact_form) and n >= 0 and (abs(teff) <= db or abs(teff + n - N) <= db) and \
@@ -231,6 +237,10 @@ def long_case(case, res):
                 out = pb.snippet(z, targ, n)
             except Exception as e:
                 res.transitions += 1
+                if form != "float" and isinstance(e, ValueError) and abs(teff + n - N) <= F(1, 10 ** 6):
+                    # Quantity/Time request exactly on the boundary: the float conversion may land a rounding outside
+                    res.skipped["Quantity/Time request exactly on the boundary (float conversion may land either side)"] += 1
+                    continue
                 res.violation(f"snippet|long|{form}|raised", f"{type(e).__name__}: {e} [{sub}]", case, sub)
                 continue
             res.transitions += 1
@@ -262,7 +272,7 @@ def main(argv=None):
     return report.run_check(
         PID, gen_cases=gen_cases, check_case=check_case, describe=describe,
         required_hits=["Time on start-less signal rejected", "out of range rejected", "n = 0",
-                       "whole-sample count (bit-exact slice)", "fractional (DFT interpolation)", "long signal, large offset"],
+                       "whole-sample count (bit-exact slice)", "fractional (DFT interpolation)", "long signal, large offset", "request a few nano-samples off a whole sample"],
         assumptions=["the instant a request denotes is computed exactly from the form given (count / Quantity / Time); "
                      "resolution allowance 0 / 1e-15 rel / 4 ulp_T*sr samples",
                      "start_time of an empty (n=0) result is unconstrained",
